@@ -99,8 +99,17 @@ def float_relations(chk: Check, n):
         try:
             for alt in ALTS:
                 for cl in (cl1, cl2):
-                    res[(alt, cl)] = tt.Mean("x", alternative=alt, equal_var=ev, use_t=ut, confidence_level=cl
-                                             ).analyze({0: c, 1: t}, 0, 1)
+                    if k % 3 == 1:
+                        # the options come from the configuration in force at construction ("for any input and options":
+                        # however the options were given)
+                        with tt.config_context(alternative=alt, equal_var=ev, use_t=ut, confidence_level=cl):
+                            m_ = tt.Mean("x")
+                    elif k % 3 == 2:
+                        with tt.config_context(alternative=alt, confidence_level=cl):
+                            m_ = tt.Mean("x", equal_var=ev, use_t=ut)
+                    else:
+                        m_ = tt.Mean("x", alternative=alt, equal_var=ev, use_t=ut, confidence_level=cl)
+                    res[(alt, cl)] = m_.analyze({0: c, 1: t}, 0, 1)
         except Exception as ex:  # noqa: BLE001
             chk.fail("analysis raised on valid aggregates", dict(stats=[cm, cv, cn, tm, tv, tn], error=repr(ex)))
             continue
